@@ -748,14 +748,31 @@ def r4_empty_location(ctx):
               "reverse_strand": ("ok", "empty"), "union": ("raise", "EmptyLocationException"), "extend_absolute": ("raise", "EmptyLocationException"),
               "shift_position": ("raise", "EmptyLocationException"), "distance_to": ("raise", "EmptyLocationException"),
               "parent_to_relative_pos": ("raise", "EmptyLocationException"), "relative_to_parent_pos": ("raise", "EmptyLocationException"),
-              "extract_sequence": ("raise", "EmptyLocationException"), "reset_strand": ("raise", "EmptyLocationException")}
+              "extract_sequence": ("raise", "EmptyLocationException"), "reset_strand": ("raise", "EmptyLocationException"),
+              # the rest of the class: nothing of an empty location has a position, a strand or a parent system
+              "is_contiguous": ("raise", "EmptyLocationException"), "parent_to_relative_location": ("raise", "EmptyLocationException"),
+              "relative_interval_to_parent_location": ("raise", "EmptyLocationException"), "reset_parent": ("raise", "EmptyLocationException"),
+              "union_preserve_overlaps": ("raise", "EmptyLocationException"), "extend_relative": ("raise", "EmptyLocationException"),
+              "to_biopython": ("raise", "EmptyLocationException"), "first_ancestor_of_type": ("raise", "EmptyLocationException"),
+              "strand": ("raise", "EmptyLocationException"), "start": ("raise", "EmptyLocationException"), "end": ("raise", "EmptyLocationException"),
+              "location_relative_to": ("ok", "empty"), "_full_span_interval": ("ok", "empty"), "length": ("ok", 0), "parent": ("ok", None),
+              "__str__": ("ok", "EmptyLocation")}
     args = {"has_overlap": [other], "intersection": [other], "minus": [other], "union": [other], "extend_absolute": [1, 1], "shift_position": [1],
-            "distance_to": [other], "parent_to_relative_pos": [3], "relative_to_parent_pos": [0], "reset_strand": [S["PLUS"]]}
+            "distance_to": [other], "parent_to_relative_pos": [3], "relative_to_parent_pos": [0], "reset_strand": [S["PLUS"]],
+            "parent_to_relative_location": [other], "relative_interval_to_parent_location": [0, 1, S["PLUS"]], "reset_parent": [None],
+            "union_preserve_overlaps": [other], "extend_relative": [1, 1], "first_ancestor_of_type": ["chromosome"], "location_relative_to": [other]}
     for m, (wk, wv) in expect.items():
         fn = repo.fn(f"{LOC}:_EmptyLocation.{m}")
         k, v = run(it, fn, args.get(m, []), {}, e)
         ok = k == wk and ((wv == "empty" and is_empty_obj(v)) or (wv != "empty" and v == wv))
         r.check(ok, "C02.R4", fn.qual, f"EmptyLocation.{m}", f"EmptyLocation.{m} -> {k}:{_describe(v) if k == 'ok' else v}; expected {wk}:{wv}", fn)
+    fe = repo.fn(f"{LOC}:_EmptyLocation.__eq__")
+    for what, arg, want in (("the empty location", e, True), ("a non-empty location", other, False), ("None", None, False)):
+        k, v = run(it, fe, [arg], {}, e)
+        r.check(k == "ok" and v is want, "C02.R4", fe.qual, f"EmptyLocation == {what}", f"EmptyLocation == {what} -> {k}:{v}; expected {want}", fe)
+    k, v = run(it, repo.fn(f"{LOC}:_EmptyLocation.scan_blocks"), [], {}, e)
+    r.check(k == "ok" and not list(it.iterate(v) if v is not None else []), "C02.R4", f"{LOC}:_EmptyLocation.scan_blocks", "EmptyLocation.scan_blocks",
+            f"scan_blocks -> {k}:{v}; an empty location has no block to scan", repo.fn(f"{LOC}:_EmptyLocation.scan_blocks"))
     for prop_, want in (("is_empty", True), ("blocks", []), ("num_blocks", 0), ("is_overlapping", False)):
         fn = repo.fn(f"{LOC}:_EmptyLocation.{prop_}")
         k, v = run(it, fn, [], {}, e)
